@@ -63,12 +63,21 @@ Fixpoint tp_weight (l : list (string * Z)) (k : string) : Z :=
   | (k', v) :: r => if String.eqb k' k then wrap_i64 (v + tp_weight r k) else tp_weight r k
   end.
 
-(* "same report": same sample type, same weight on every stack (zero = absent) *)
+(* "same report": same sample type, same contributing profiles in the same order (comments), same
+   weight on every stack (zero = absent) *)
 Definition toy_eqv (a b : tprof) : Prop :=
-  tp_type a = tp_type b /\ forall k, tp_weight (tp_samples a) k = tp_weight (tp_samples b) k.
+  (tp_type a = tp_type b /\ tp_comments a = tp_comments b)
+  /\ forall k, tp_weight (tp_samples a) k = tp_weight (tp_samples b) k.
+
+Fixpoint list_eqb {A} (eqb : A -> A -> bool) (a b : list A) : bool :=
+  match a, b with
+  | [], [] => true
+  | x :: a', y :: b' => eqb x y && list_eqb eqb a' b'
+  | _, _ => false
+  end.
 
 Definition toy_eqvb (a b : tprof) : bool :=
-  String.eqb (tp_type a) (tp_type b) &&
+  (String.eqb (tp_type a) (tp_type b) && list_eqb String.eqb (tp_comments a) (tp_comments b)) &&
   forallb (fun k => tp_weight (tp_samples a) k =? tp_weight (tp_samples b) k)
           (map fst (tp_samples a) ++ map fst (tp_samples b)).
 
@@ -82,13 +91,6 @@ Definition toy_opt_eqvb (a b : option tprof) : bool :=
 Definition status_eqb (a b : status) : bool :=
   match a, b with
   | StOk, StOk | StErrSrc, StErrSrc | StErrBase, StErrBase | StNoSrc, StNoSrc | StNoBase, StNoBase | StPanic, StPanic => true
-  | _, _ => false
-  end.
-
-Fixpoint list_eqb {A} (eqb : A -> A -> bool) (a b : list A) : bool :=
-  match a, b with
-  | [], [] => true
-  | x :: a', y :: b' => eqb x y && list_eqb eqb a' b'
   | _, _ => false
   end.
 
